@@ -31,3 +31,6 @@ CFG = {'harness': 'det',
                'extraction; harness',
  'note': 'model = spec by C05_pwb_exact, so a difference is an input on which the implementation departs from the '
          'documented layout'}
+
+# translator plugins this property needs besides the board tables of tools/gen.py (none)
+CFG["gen_plugins"] = []
